@@ -709,3 +709,19 @@ CHECKS["C18"]["text"] += (
 CHECKS["C13"]["text"] += (
     " A stored index feature with fewer entries than events is a corruption "
     "of its own (the checker must report, not raise).")
+CHECKS["C01"]["text"] += (
+    " Every scalar feature name of dclab.definitions is written with "
+    "real-valued data (fractions, negative values; integers for the "
+    "integer-typed features) in two appends and read back.")
+CHECKS["C02"]["text"] += (
+    " The .tsv export replaces an existing file (an earlier export of all "
+    "events with another column set).")
+CHECKS["C08"]["text"] += (
+    " In one extra the output of the first task is requested next to the "
+    "input under the input's stem with another suffix; the input must stay.")
+CHECKS["C10"]["text"] += (
+    " Variant 3 requests the output next to the input under the input's stem "
+    "with another suffix (compress, repack, condense).")
+CHECKS["C13"]["text"] += (
+    " The missing-key corruption removes each mandatory key in turn (all "
+    "documented keys for every measurement and for fluorescence).")
